@@ -1,5 +1,5 @@
 (* C03 — preferred-engine (backtracking) insertion never changes relation content. *)
-From DR Require Import Model.Backtrack Proofs.SqlRules Proofs.BacktrackLaws Proofs.MultiIter.
+From DR Require Import Model.Backtrack Proofs.SqlRules Proofs.BacktrackLaws Proofs.MultiIter Proofs.JoinCommute Proofs.JoinBacktrack.
 Local Open Scope Z_scope.
 
 (* iteration.Engine.backtrack_unary — for every tree it can walk (unary operations in iteration
@@ -54,6 +54,55 @@ Theorem C03_iteration_programs_with_options_denote_their_specification : forall 
   iterprog_ok env p -> build_multi p = Ok t ->
   sem_tree env t = spec_mprog env p /\ wf_tree t /\ env_ok env t /\ columns t = mprog_cols p /\ all_iter t.
 Proof. exact build_multi_iter_built. Qed.
+
+(* JOINS as the moved operation (Relation.join with backtracking: the fixed right-hand operand lives in the engine a
+   transfer upstream of the target left).  backtrack_unary with a PartialJoin either reports the join inserted — the
+   returned tree then denotes the join of the target with the operand, applied at the root, with the columns of both —
+   or hands back the very same tree.  `spine_cons` is the documented ColumnTag contract (rows that match on the common
+   columns agree on every other column they share) at the levels the join may be moved to. *)
+Theorem C03_join_backtrack_sound : forall env j f t t' done,
+  wf_tree f -> env_ok env f -> tree_ok env f -> j_max j = Some (j_min j) -> j_min j ⊆ columns f -> columns f <> ∅ ->
+  wf_tree t -> env_ok env t -> spine_ok env t ->
+  pjoin_required j f ⊆ columns t -> cols_p (j_pred j) ⊆ columns t ∪ columns f -> columns t <> ∅ ->
+  spine_cons env (j_min j) (sem_tree env f) t ->
+  backtrack (RJoin j f false) t (engine_of f) = Ok (t', done) ->
+  wf_tree t' /\ env_ok env t' /\ engine_of t' = engine_of t /\
+  if done then sem_tree env t' = sem_join (j_min j) (j_pred j) (sem_tree env t) (sem_tree env f) /\
+               columns t' = columns t ∪ columns f
+  else t' = t.
+Proof.
+  intros env j f t t' done Wf Ef Of Hmax Hcf Nf. exact (backtrack_join_sound env j f Wf Ef Of Hmax Hcf Nf t t' done).
+Qed.
+
+(* ... and the whole call lhs.join(rhs, predicate, backtrack=, transfer=): whichever route is taken (same engine,
+   join inserted upstream, target transferred to the operand's engine) the result denotes the natural join on the
+   shared key columns with the predicate, has the columns of both, is well-formed and lives in the target's engine or
+   (after a transfer) in the operand's; without a transfer, operands in different engines are refused. *)
+Theorem C03_join_with_options_sound : forall env p f t jb jt t1,
+  wf_tree t -> env_ok env t -> spine_ok env t -> tree_ok env t ->
+  wf_tree f -> env_ok env f -> tree_ok env f -> columns t <> ∅ -> columns f <> ∅ ->
+  spine_cons env (natural_common (columns t) (columns f)) (sem_tree env f) t ->
+  (engine_of f = engine_of t \/ jt = true \/ ekind_of (engine_of t) = KIter) ->
+  (jt = true -> ekind_of (engine_of f) = KSql ->
+     (jb = false \/ ekind_of (engine_of t) = KSql) /\ forall x, xfer_simplify (engine_of f) t = Some x -> good_all env x) ->
+  apply_full (RJoin (JSpec p ∅ None) f false) t (Opts None jb jt false) = Ok t1 ->
+  sem_tree env t1 = sem_join (natural_common (columns t) (columns f)) p (sem_tree env t) (sem_tree env f) /\
+  columns t1 = columns t ∪ columns f /\ wf_tree t1 /\ env_ok env t1 /\
+  (engine_of t1 = engine_of t \/ (jt = true /\ engine_of t1 = engine_of f)).
+Proof. exact apply_full_join_sound. Qed.
+
+(* non-vacuity for joins: a join with an operand in engine A is inserted below the transfer that left A, past a
+   selection and a projection of the target *)
+Example C03_join_nonvacuous :
+  let A := Eng KIter 0 in let B := Eng KIter 1 in
+  let a := 2%positive in let c := 4%positive in let d := 6%positive in
+  let leaf := Leaf 1 A (mkset [a; c]) 0 None in
+  let f := Leaf 2 A (mkset [a; d]) 0 None in
+  let t := Un (Proj (mkset [a])) (Un (Sel (PCmp CGt (ERef c) (ELit 0))) (Xfer B leaf)) in
+  result_eqb tree_eqb
+    (apply_full (RJoin (JSpec (PLit true) ∅ None) f false) t (Opts None true false false))
+    (Ok (Un (Proj (mkset [a; d])) (Un (Sel (PCmp CGt (ERef c) (ELit 0))) (Xfer B (Bin (Join (PLit true) (mkset [a])) leaf f))))) = true.
+Proof. vm_compute. reflexivity. Qed.
 
 (* non-vacuity: a projection that can only partly be inserted upstream of a selection, across a transfer *)
 Example C03_nonvacuous :
